@@ -153,4 +153,4 @@ package graphql
 //@   at[C20] call ResolveType: assert arg0.Value == result && arg0.Context == eCtx.Context
 //@   at[C20] call defaultResolveTypeFn: assert arg0.Value == result && arg0.Context == eCtx.Context && arg1 == returnType
 //@   at[C20,C01] call executePlannedSelection: assert arg0 == eCtx && arg2 == result && arg3 == runtimeType && arg4 == path && arg3 != nil
-//@   at[C04] call executePlannedSelection: assert IsPossibleType_0(eCtx.Schema, returnType, runtimeType)
+//@   at[C04] call executePlannedSelection: assert Schema.IsPossibleType_0(&eCtx.Schema, returnType, runtimeType)
